@@ -178,7 +178,11 @@ def main():
         if cex is None:
             harness_errors.append("%s: refuted without a realised counterexample: %s" % (ob.id, r["detail"]))
             continue
-        desc = do_replay(ob, cex)
+        try:
+            desc = do_replay(ob, cex)
+        except Exception as e:
+            harness_errors.append("%s: replay of %r failed: %s: %s" % (ob.id, cex, type(e).__name__, str(e)[:600]))
+            continue
         replayed += 1
         r["replay"] = desc
         if not desc:
